@@ -109,7 +109,7 @@ EXPR_FIRST == LHS_FIRST
 EXPR_RECOVERY_SET == {"R_PAREN", "R_BRACK"}
 ITEM_RECOVERY_SET == {"GATE_KW", "DEF_KW", "DEFCAL_KW", "DEFCALGRAMMAR_KW", "INCLUDE_KW", "CAL_KW", "RESET_KW", "BARRIER_KW", "CONST_KW", "LET_KW",
                       "O_P_E_N_Q_A_S_M_KW", "SEMICOLON"}
-PATTERN_FIRST == LITERAL_FIRST \cup PATH_FIRST \cup {"BOX_KW", "CONST_KW", "L_PAREN", "L_BRACK", "AMP", "UNDERSCORE", "MINUS", "DOT"}
+PATTERN_FIRST == LITERAL_FIRST \cup PATH_FIRST \cup {"BOX_KW", "CONST_KW", "L_PAREN", "L_BRACK", "AMP", "UNDERSCORE", "MINUS", "TILDE", "DOT"}
 TYPE_FIRST == PATH_FIRST \cup {"L_PAREN", "L_BRACK", "L_ANGLE", "BANG", "STAR", "AMP", "UNDERSCORE", "EXTERN_KW"}
 PARAM_FIRST == PATTERN_FIRST \cup TYPE_FIRST
 TIMING_LITERAL_FIRST == {"INT_NUMBER", "FLOAT_NUMBER"}
